@@ -59,7 +59,7 @@ func (b *BandSim) DeliverAck(w *World, ev *Event) (err error) {
 			w.Panicked = err.Error()
 		}
 	}()
-	ctx := w.Ctx()
+	ctx := w.WCtx()
 	calldata := obi.MustEncode(bandtypes.FetchPriceCallData{Symbols: []string{"X"}, Multiplier: 1000000})
 	reqData := packet.NewOracleRequestPacketData(bandtypes.FetchPriceClientIDKey, 112, calldata, 3, 1,
 		sdk.NewCoins(sdk.NewCoin("uband", sdk.NewInt(250000))), 600000, 600000)
@@ -79,7 +79,7 @@ func (b *BandSim) DeliverResp(w *World, ev *Event) (err error) {
 			w.Panicked = err.Error()
 		}
 	}()
-	ctx := w.Ctx()
+	ctx := w.WCtx()
 	res := obi.MustEncode(bandtypes.FetchPriceResult{Rates: ev.Rates})
 	data := packet.OracleResponsePacketData{ClientID: bandtypes.FetchPriceClientIDKey, RequestID: uint64(ev.ReqID), AnsCount: 3,
 		RequestTime: ctx.BlockTime().Unix() - 5, ResolveTime: ctx.BlockTime().Unix(), ResolveStatus: packet.RESOLVE_STATUS_SUCCESS, Result: res}
